@@ -29,6 +29,20 @@ claim('C07',
       'TLA+ spec (Slash.tla) + TLC exhaustive + two-step replay of TLC behaviours + record validation (Slash_Trace.tla)',
       'DESIGN.md 3/C07')
 
+claim('C08',
+      'TLC model-checks ErrPipe.tla, the error pipeline of Application.dispatch as a state machine (execute, non-Response check, '
+      'caught / uncaught_to_response / reraise, breaking vs non-breaking, catch-all, render_error, default fallback) over histories of '
+      'requests against one application (3 handler kinds x 4 render_error kinds; 8 behaviours x 8 positions): Total, '
+      'EscapeOnlyIfReraise, HistoryFree, HttpKeepsStatus, NoStuck, ConfigImmutable. Bound to the code: every single-request history '
+      '(exhaustive) and simulated histories of 6 are replayed at the WSGI level against ONE real application per history, instantiated '
+      'from palettes (18 exception kinds incl. non-ASCII / 200 kB / unprintable, every exported HTTPException class raised/returned, '
+      'breaking/non-breaking, 8 non-Response values, Accept headers, methods); each outcome (complete response + status, or the '
+      'original exception object for the re-raising handler) must be the one TLC computed.',
+      'Trusted: TLC; werkzeug run_wsgi_app for driving the WSGI callable; BaseException subclasses outside the quantifier; '
+      'render_error returning another error may yield either status.',
+      'TLA+ spec (ErrPipe.tla) + TLC exhaustive/simulation + WSGI-level replay of TLC-generated request histories',
+      'DESIGN.md 3/C08')
+
 claim('C19',
       'TLC model-checks Reservoir.tla (algorithm shaped like Reservoir.add/resize refines the property relation; '
       'Bounded/OnlyAdded/NeverRaises/ExactCount in every reachable state, all replacement indices, all resize points) '
